@@ -12,9 +12,15 @@ LEVEL_TEXT = ("Theorems in Coq over an abstract field with conjugation (every or
               "(anti)palindromic, vanish at the roots the code divides out and reconstruct a = (P1+Q1)/2; log-area-ratio and inverse-sine "
               "maps are inverse bijections in Coq's R. The hand-written Gallina model (Model/LinPred.v) is tied to linear_prediction.py / "
               "levinson.py by running both on the same exact dyadic inputs (vm_compute over Gaussian rationals, comparison inside Coq), "
-              "including every error branch, and a property-directed search runs every pair of representations on the implementation.")
+              "including every error branch, and a property-directed search runs every pair of representations on the implementation. "
+              "rlevinson itself (the 2-D array U, its column stores, the embedded call of levdown) is moreover translated from the snapshot "
+              "source to a loop-IR program on every run and `run program (a, efinal)` is compared with Model.LinPred.rlevinson EXACTLY "
+              "(QcC, zero tolerance: same outcome / exception class, every entry of R, U, kr, e, dtype tags; orders 1..5, both dtypes, every "
+              "error branch); for the argument checks and order 1 this equality is a theorem about the generated program (Proofs/LoopIRRlevinson.v).")
 TRUSTED = [TRUSTED_LINE, "Coq 8.16.1 kernel + vm_compute (no native_compute)",
-           "hand-written model coq/Model/LinPred.v (+ Model/Levinson.v), tied to linear_prediction.py/levinson.py by the correspondence run only",
+           "hand-written model coq/Model/LinPred.v (+ Model/Levinson.v), tied to linear_prediction.py/levinson.py by the correspondence run "
+           "(float tolerance) and, for LEVINSON / levup / levdown / rlevinson, by the loop-IR tie (exact; theorem for LEVINSON, levup, levdown, "
+           "and for rlevinson's argument checks and order 1; rlevinson at orders >= 2: exact evaluation on sampled inputs)",
            "numpy.roots / numpy.poly / scipy.signal.deconvolve inside poly2lsf / lsf2poly: the arguments handed to roots and the values "
            "returned by poly are captured on the unmodified snapshot and compared with the model; root finding itself is not verified",
            "numpy.arctanh/tanh/arcsin/sin (lar/is): compared with math.log1p/expm1/asin/sin; the Coq theorems about them are over stdlib Reals",
@@ -23,7 +29,9 @@ UNPROVED = ["LSF: the roots of the sum/difference polynomials lie on the unit ci
             "(Hermite-Biehler argument): search only",
             "minimum phase (roots inside the unit disc) <=> |k_i| < 1: search only",
             "positive definiteness of the autocorrelation returned by rc2ac/poly2ac beyond 'LEVINSON returns on it with the same k': search (Toeplitz equations)",
-            "lar/is: theorems are about ln/tanh/asin/sin in R, the numpy float functions are tied by an oracle comparison only"]
+            "lar/is: theorems are about ln/tanh/asin/sin in R, the numpy float functions are tied by an oracle comparison only",
+            "loop-IR tie of rlevinson: `run program = Model.LinPred.rlevinson` is a theorem only for the argument checks and order 1; at orders >= 2 "
+            "(step-down loop through the embedded levdown, column stores into U, the R recursion) it is evaluated exactly on sampled inputs only"]
 ASSUMPTIONS = ["exact arithmetic in the theorems; rounding error of the binary64 code is not bounded by any theorem",
                "inputs of the correspondence run are dyadic rationals with few significant bits, orders <= 8, |k| <= 0.9",
                "search: orders 1..16, |k| <= 0.98, cases with prod 1/(1-|k|^2) > 1e6 are regenerated (counted)"]
@@ -455,7 +463,9 @@ def run(ctx):
     from spectrum.levinson import rlevinson, levdown
     rng = ctx.rng
     ctx.check_theorems('Properties/C11.v')
-    loopir_tie(ctx, ['LEVINSON', 'levup', 'levdown'])      # IR programs regenerated from the source vs the hand models: exact, zero tolerance
+    # IR programs regenerated from the source vs the hand models: exact, zero tolerance.  rlevinson (2-D array U, column stores, the call of
+    # levdown) is translated too: `run program (a, efinal)` = Model.LinPred.rlevinson, same outcome, every entry of R, U, kr, e
+    loopir_tie(ctx, ['LEVINSON', 'levup', 'levdown', 'rlevinson'])
 
     def call(f, *args):
         try:
